@@ -614,11 +614,11 @@ def harness_build(g, target_key=None, demo=False, timeout=1500, lock_ready=False
     env = dict(vlib.ENV)
     env["CARGO_TARGET_DIR"] = tdir
     env["SQV_C20_TYPES"] = types_rs
-    feats = ["sea-query/" + f for f in g.feats] + (["demo"] if demo else [])
+    feats = ["sea-query/" + f for f in g.feats]
     cmd = ["cargo", "build", "--offline", "--quiet"]
     if feats:
         cmd += ["--features", ",".join(feats)]
-    rc, out = vlib.sh(cmd, cwd=HARNESS_DIR, timeout=timeout, env=env)
+    rc, out = vlib.sh(cmd + ["--bin", "sqv-c20"], cwd=HARNESS_DIR, timeout=timeout, env=env)
     if rc != 0:
         raise vlib.BuildError("harness_c20 build (%s) failed:\n%s" % (g.key, out[-3000:]))
     exe = os.path.join(tdir, "debug", "sqv-c20")
@@ -627,13 +627,22 @@ def harness_build(g, target_key=None, demo=False, timeout=1500, lock_ready=False
         raise vlib.BuildError("harness_c20 run (%s) failed:\n%s" % (g.key, out[-2000:]))
     if "SELFTEST ok" not in out:
         raise vlib.BuildError("harness_c20 self-test of the Send/Sync probe failed (%s):\n%s" % (g.key, out[-500:]))
-    table, demo_line = {}, None
+    table = {}
     for line in out.splitlines():
         f = line.split(" ")
         if f[0] == "T" and len(f) == 4:
             table[int(f[1])] = (f[2] == "true", f[3] == "true")
-        elif f[0] == "DEMO":
-            demo_line = line
+    demo_line = None
+    if demo:
+        # separate binary: if the statement types are not Send + Sync it does not compile, and the
+        # table above says which type is responsible
+        rc, out = vlib.sh(cmd + ["--bin", "sqv-c20-demo"], cwd=HARNESS_DIR, timeout=timeout, env=env)
+        if rc != 0:
+            m = re.search(r"error(\[E\d+\])?: .*", out)
+            demo_line = "DEMO does not compile: " + (m.group(0)[:300] if m else out[-300:])
+        else:
+            rc, out = vlib.sh([os.path.join(tdir, "debug", "sqv-c20-demo")], timeout=120, env=env)
+            demo_line = ([l for l in out.splitlines() if l.startswith("DEMO")] or ["DEMO failed: " + out[-300:]])[0]
     return table, demo_line
 
 
@@ -654,16 +663,22 @@ def coq_verdicts(g, workdir, generated_module=None, timeout=600):
         body = to_coq(g)
         gname = "graph"
     body += "\nGoal stable %s (solve %s). Proof. vm_compute. reflexivity. Qed.\n" % (gname, gname)
-    body += "Set Printing Depth 1000000.\nSet Printing Width 200.\nEval vm_compute in (solve %s).\n" % gname
+    body += ("From Coq Require Import String Ascii.\n"
+             "Fixpoint c20_render (v : verdicts) : string :=\n"
+             "  match v with\n  | nil => EmptyString\n"
+             "  | cons (a, b) t => String (if a then \"1\" else \"0\")%char (String (if b then \"1\" else \"0\")%char\n"
+             "                       (String \" \"%char (c20_render t)))\n  end.\n"
+             "Set Printing Depth 1000000.\nSet Printing Width 1000000.\n"
+             "Eval vm_compute in (c20_render (solve " + gname + ")).\n")
     with open(path, "w") as f:
         f.write(body)
     rc, out = vlib.sh(["coqc", "-Q", vlib.COQ, "SQV", "-w", "-notation-overridden", path], cwd=workdir, timeout=timeout)
     if rc != 0:
         raise vlib.BuildError("coq evaluation of the model (%s) failed:\n%s" % (g.key, out[-2000:]))
-    pairs = re.findall(r"\((true|false),\s*(true|false)\)", out)
-    if "= []" in out and not pairs:
-        pairs = []
-    return [(a == "true", b == "true") for a, b in pairs]
+    m = re.search(r'= "([01 \n]*)"', out)
+    if not m:
+        raise vlib.BuildError("coq evaluation of the model (%s): unexpected output:\n%s" % (g.key, out[-1000:]))
+    return [(w[0] == "1", w[1] == "1") for w in m.group(1).split()]
 
 
 # --------------------------------------------------------------------------------------------------
